@@ -265,6 +265,49 @@ fn is_diagonal<T: Numeric>(d: &Grid<T>) -> bool {
 }
 
 // ---------------------------------------------------------------------------------------------
+// the decomposition structs themselves: `from_unchecked` stores exactly the two factors it is
+// given, `Display` prints the two factors under their letters (reported in the `aux` part)
+// ---------------------------------------------------------------------------------------------
+
+/// a sink that refuses everything: `Display` must hand its error on
+struct ClosedSink;
+
+impl std::fmt::Write for ClosedSink {
+    fn write_str(&mut self, _s: &str) -> std::fmt::Result {
+        Err(std::fmt::Error)
+    }
+}
+
+fn sink_error_propagates<D: Display>(d: &D) -> bool {
+    use std::fmt::Write;
+    write!(ClosedSink, "{}", d).is_err()
+}
+
+fn struct_facts(roundtrip: bool, display: bool) -> String {
+    format!("struct={} display={}", ok(roundtrip), ok(display))
+}
+
+fn ldlt_matrix_facts<T: Clone + PartialEq + Display>(f: &linear_algebra::LDLTDecomposition<T>) -> String {
+    let again = linear_algebra::LDLTDecomposition::from_unchecked(f.l.clone(), f.d.clone());
+    struct_facts(again.l == f.l && again.d == f.d, format!("{}", f) == format!("L:\n{}\nD:\n{}", f.l, f.d) && sink_error_propagates(f))
+}
+
+fn ldlt_tensor_facts<T: Clone + PartialEq + Display>(f: &linear_algebra::LDLTDecompositionTensor<T>) -> String {
+    let again = linear_algebra::LDLTDecompositionTensor::from_unchecked(f.l.clone(), f.d.clone());
+    struct_facts(again.l == f.l && again.d == f.d, format!("{}", f) == format!("L:\n{}\nD:\n{}", f.l, f.d) && sink_error_propagates(f))
+}
+
+fn qr_matrix_facts<T: Clone + PartialEq + Display>(f: &linear_algebra::QRDecomposition<T>) -> String {
+    let again = linear_algebra::QRDecomposition::from_unchecked(f.q.clone(), f.r.clone());
+    struct_facts(again.q == f.q && again.r == f.r, format!("{}", f) == format!("Q:\n{}\nR:\n{}", f.q, f.r) && sink_error_propagates(f))
+}
+
+fn qr_tensor_facts<T: Clone + PartialEq + Display>(f: &linear_algebra::QRDecompositionTensor<T>) -> String {
+    let again = linear_algebra::QRDecompositionTensor::from_unchecked(f.q.clone(), f.r.clone());
+    struct_facts(again.q == f.q && again.r == f.r, format!("{}", f) == format!("Q:\n{}\nR:\n{}", f.q, f.r) && sink_error_propagates(f))
+}
+
+// ---------------------------------------------------------------------------------------------
 // running the real code
 // ---------------------------------------------------------------------------------------------
 
@@ -296,46 +339,47 @@ where
 
 fn run_ldlt<T>(rows: usize, cols: usize, a: Vec<T>, names: [&'static str; 2], via: &str) -> String
 where
-    T: Numeric + Display,
+    T: Numeric + Display + PartialEq,
     for<'a> &'a T: NumericRef<T>,
 {
     let input = build_input(via, rows, cols, names, &a, T::one() + T::one());
     let r = catch(|| {
         dispatch!(input, via, names,
             |m| linear_algebra::ldlt_decomposition::<T>(&m)
-                .map(|f| (Grid::of_matrix(&f.l, names), Grid::of_matrix(&f.d, names))),
+                .map(|f| (Grid::of_matrix(&f.l, names), Grid::of_matrix(&f.d, names), ldlt_matrix_facts(&f))),
             |t| linear_algebra::ldlt_decomposition_tensor::<T, _, _>(t)
-                .map(|f| (Grid::of_tensor(&f.l), Grid::of_tensor(&f.d))))
+                .map(|f| (Grid::of_tensor(&f.l), Grid::of_tensor(&f.d), ldlt_tensor_facts(&f))))
     });
     match r {
         Err(k) => panic_str(k),
         Ok(None) => "none".to_string(),
-        Ok(Some((l, d))) => format!(
-            "some lshape={} dshape={} unitlower={} diag={} ident={} ## L={} D={}",
+        Ok(Some((l, d, facts))) => format!(
+            "some lshape={} dshape={} unitlower={} diag={} ident={} ## L={} D={} {}",
             show_shape(&l.shape),
             show_shape(&d.shape),
             ok(is_unit_lower(&l)),
             ok(is_diagonal(&d)),
             ok(ldlt_identity(&l, &d, &a)),
             show_elems(&l.data),
-            show_elems(&d.data)
+            show_elems(&d.data),
+            facts
         ),
     }
 }
 
 fn qr_factors<T>(rows: usize, cols: usize, a: &[T], names: [&'static str; 2], via: &str, filler: T)
-    -> Result<Option<(Grid<T>, Grid<T>)>, PanicKind>
+    -> Result<Option<(Grid<T>, Grid<T>, String)>, PanicKind>
 where
-    T: Real,
+    T: Real + Display + PartialEq,
     for<'a> &'a T: RealRef<T>,
 {
     let input = build_input(via, rows, cols, names, a, filler);
     catch(|| {
         dispatch!(input, via, names,
             |m| linear_algebra::qr_decomposition::<T>(&m)
-                .map(|f| (Grid::of_matrix(&f.q, names), Grid::of_matrix(&f.r, names))),
+                .map(|f| (Grid::of_matrix(&f.q, names), Grid::of_matrix(&f.r, names), qr_matrix_facts(&f))),
             |t| linear_algebra::qr_decomposition_tensor::<T, _, _>(t)
-                .map(|f| (Grid::of_tensor(&f.q), Grid::of_tensor(&f.r))))
+                .map(|f| (Grid::of_tensor(&f.q), Grid::of_tensor(&f.r), qr_tensor_facts(&f))))
     })
 }
 
@@ -343,12 +387,13 @@ fn run_qr_fp(rows: usize, cols: usize, a: Vec<Fp>, names: [&'static str; 2], via
     match qr_factors::<Fp>(rows, cols, &a, names, via, Fp(2)) {
         Err(k) => panic_str(k),
         Ok(None) => "none".to_string(),
-        Ok(Some((q, r))) => format!(
-            "some qshape={} rshape={} ## Q={} R={}",
+        Ok(Some((q, r, facts))) => format!(
+            "some qshape={} rshape={} ## Q={} R={} {}",
             show_shape(&q.shape),
             show_shape(&r.shape),
             show_elems(&q.data),
-            show_elems(&r.data)
+            show_elems(&r.data),
+            facts
         ),
     }
 }
@@ -496,14 +541,14 @@ fn run_f64(alg: &str, rows: usize, cols: usize, kind: &str, seed: u64, via: &str
             let r = catch(|| {
                 dispatch!(input, via, names,
                     |m| linear_algebra::ldlt_decomposition::<f64>(&m)
-                        .map(|f| (Grid::of_matrix(&f.l, names), Grid::of_matrix(&f.d, names))),
+                        .map(|f| (Grid::of_matrix(&f.l, names), Grid::of_matrix(&f.d, names), ldlt_matrix_facts(&f))),
                     |t| linear_algebra::ldlt_decomposition_tensor::<f64, _, _>(t)
-                        .map(|f| (Grid::of_tensor(&f.l), Grid::of_tensor(&f.d))))
+                        .map(|f| (Grid::of_tensor(&f.l), Grid::of_tensor(&f.d), ldlt_tensor_facts(&f))))
             });
             match r {
                 Err(k) => panic_str(k),
                 Ok(None) => "none".into(),
-                Ok(Some((l, d))) => {
+                Ok(Some((l, d, facts))) => {
                     let n = rows;
                     let mut ident = true;
                     for i in 0..n {
@@ -514,14 +559,14 @@ fn run_f64(alg: &str, rows: usize, cols: usize, kind: &str, seed: u64, via: &str
                     }
                     let unit = (0..n).all(|i| l.at(i, i) == 1.0 && ((i + 1)..n).all(|j| l.at(i, j) == 0.0));
                     let diag = (0..n).all(|i| (0..n).all(|j| i == j || d.at(i, j) == 0.0));
-                    format!("some unitlower={} diag={} ident={}", ok(unit), ok(diag), ok(ident))
+                    format!("some unitlower={} diag={} ident={} ## {}", ok(unit), ok(diag), ok(ident), facts)
                 }
             }
         }
         _ => match qr_factors::<f64>(rows, cols, &a, names, via, 2.0) {
             Err(k) => panic_str(k),
             Ok(None) => "none".into(),
-            Ok(Some((q, r))) => {
+            Ok(Some((q, r, facts))) => {
                 let (m, n) = (rows, cols);
                 let shapes = q.shape == [("r", m), ("c", m)] && r.shape == [("r", m), ("c", n)];
                 let mut product = true;
@@ -544,7 +589,10 @@ fn run_f64(alg: &str, rows: usize, cols: usize, kind: &str, seed: u64, via: &str
                         upper &= r.at(i, j).abs() <= tol;
                     }
                 }
-                format!("some shapes={} product={} orthogonal={} upper={}", ok(shapes), ok(product), ok(orth), ok(upper))
+                format!(
+                    "some shapes={} product={} orthogonal={} upper={} ## {}",
+                    ok(shapes), ok(product), ok(orth), ok(upper), facts
+                )
             }
         },
     }
